@@ -1,6 +1,7 @@
 import Dcg.Proofs.Resolver
 import Dcg.Proofs.ResolverMultidoc
 import Dcg.Proofs.ResolverWorklist
+import Dcg.Proofs.ResolverDedupe
 /-
 C06 — each named schema yields exactly one model and every reference lands on it.
 Only property theorems live here; helper lemmas are in Dcg/Proofs/Resolver.lean.
@@ -241,6 +242,61 @@ theorem module_pass_restores_imported_name :
        ⟨L "#/definitions/optional", L "Optional1", L "Optional"⟩] =
       some [L "Root", L "OptionalModel", L "Optional"] := by decide
 
+/-! ### `Parser.__delete_duplicate_models`: merged only when the rendered content is identical -/
+
+section dedupe
+open Dcg.Model.ResolverDedupe Dcg.Proofs.ResolverDedupe
+
+/-- the pass gives a verdict for every model -/
+theorem dedupe_length (ms : List DModel) : (dedupe ms).length = ms.length := by
+  have h := run_inv ms
+  have := h.1.len
+  rw [h.2] at this
+  exact this
+
+/-- DEDUPE_ONLY_IDENTICAL, over ANY sequence of models (any number of same-named ones, in any order,
+interleaved with others): a model is dropped only in favour of an EARLIER model that has the same desired
+name AND the same rendered content (`render(class_name=duplicate_class_name)`, `imports`), and that model
+is itself kept. -/
+theorem dedupe_only_identical (ms : List DModel) (i j : Nat) (h : (dedupe ms)[i]? = some (some j)) :
+    j < i ∧ ∃ mi mj : DModel, ms[i]? = some mi ∧ ms[j]? = some mj ∧ mi.key = mj.key ∧ mi.name = mj.name ∧
+      (dedupe ms)[j]? = some none := by
+  have hr := run_inv ms
+  have := hr.1.out i j h
+  rw [hr.2] at this
+  exact this
+
+/-- …hence every `$ref`: the model that a reference to the model at position `i` is rendered as after the
+pass (`land`) is a kept model with exactly the content and the desired name of model `i`. -/
+theorem ref_lands_on_identical_content (ms : List DModel) (i : Nat) (mi : DModel) (h : ms[i]? = some mi) :
+    ∃ mj : DModel, ms[land (dedupe ms) i]? = some mj ∧ mj.key = mi.key ∧ mj.name = mi.name ∧
+      (dedupe ms)[land (dedupe ms) i]? = some none := by
+  have hi : i < (dedupe ms).length := by rw [dedupe_length]; exact lt_of_get h
+  unfold land
+  cases hv : (dedupe ms)[i]? with
+  | none =>
+    have := List.getElem?_eq_none_iff.mp hv
+    omega
+  | some v =>
+    cases v with
+    | none => exact ⟨mi, h, rfl, rfl, hv⟩
+    | some j =>
+      obtain ⟨_, mi', mj, h1, h2, h3, h4, h5⟩ := dedupe_only_identical ms i j hv
+      rw [h] at h1
+      cases h1
+      exact ⟨mj, h2, h3.symm, h4.symm, h5⟩
+
+/-- non-vacuity, and what the pass does with three same-named models: a model is compared with the one
+registered LAST under its name. `X, X', Y` (X' = X): X' is dropped for X. `X, Y, X'`: Y replaces X in the
+registry, X' differs from Y, nothing is dropped — in particular X' is NOT dropped for Y. -/
+example :
+    let x : DModel := ⟨"Pet".toList, "name".toList⟩
+    let y : DModel := ⟨"Pet".toList, "age".toList⟩
+    dedupe [x, x, y] = [none, some 0, none] ∧ dedupe [x, y, x] = [none, none, none] ∧
+      dedupe [y, x, x] = [none, none, some 1] ∧ land (dedupe [x, x, y]) 1 = 0 := by decide
+
+end dedupe
+
 /-! ### `resolve_ref` -/
 
 /-- Resolving an already resolved reference changes nothing (local pointers, `#`, plain relative
@@ -338,5 +394,73 @@ example :
       | _ => []) = [(0, 0), (1, 1)] := by decide
 
 end multidoc
+
+/-! ### relative-file references in a tree of directories: a function of (current base path, reference) -/
+
+section basepath
+open Dcg.Model.ResolverMultidoc Dcg.Proofs.ResolverMultidoc
+
+/-- RESOLUTION IS HISTORY-FREE: whatever `resolve_ref` calls were made before — in this or in other
+directories, inside contexts that have been left since — the answer to `resolve_ref(r)` is the same as
+if none of them had been made. -/
+theorem resolve_ignores_earlier_resolves (s : CState) (ops : List COp) (r : List Char) :
+    answerAfter s ops r = answerAfter s (ops.filter (fun o => !o.isResolve)) r := by
+  unfold answerAfter
+  rw [crun_filter]
+
+/-- …and it is a function of the current base path and the reference alone: two histories that end
+in the same current directory give the same answer. -/
+theorem resolve_function_of_current_directory (s s' : CState) (ops ops' : List COp) (r : List Char)
+    (h : (crun s ops).cur = (crun s' ops').cur) : answerAfter s ops r = answerAfter s' ops' r := by
+  unfold answerAfter
+  simp only [cstep, h]
+
+/-- LEAVING A CONTEXT RESTORES THE DIRECTORY: after `with current_base_path_context(p): body` — `body` any
+history that leaves only contexts it entered itself — the resolver is in the state it was in before, so a
+reference written in the enclosing document is resolved against the enclosing document's directory again. -/
+theorem exit_restores (s : CState) (p : Option (List Char)) (body : List COp) (h : nest 0 body = some 0) :
+    crun s (.enter p :: body ++ [.exit]) = s := by
+  simp only [crun, List.cons_append]
+  rw [crun_append]
+  obtain ⟨top', h1, h2⟩ := crun_nested body 0 0 [] (stk (cstep s (.enter p)).1) _ (by simp [stk]) rfl rfl h
+  have htop : top' = [] := List.eq_nil_of_length_eq_zero h2
+  rw [htop, List.nil_append] at h1
+  rw [stk_inj h1]
+  cases s
+  rfl
+
+/-- non-vacuity: inside `sub` the string `common.json#/definitions/Id` is resolved (and, in between, another
+directory is entered and left); back outside, the same string names the file of the outer directory. -/
+example :
+    let r := "common.json#/definitions/Id".toList
+    let body : List COp := [.resolve r, .enter (some "other".toList), .resolve r, .exit]
+    nest 0 body = some 0 ∧
+      answerAfter CState.init [.enter (some "sub".toList)] r = .ok "sub/common.json#/definitions/Id".toList ∧
+      answerAfter CState.init (.enter (some "sub".toList) :: body ++ [.exit]) r = .ok "common.json#/definitions/Id".toList := by
+  decide
+
+/-- EQUAL RELATIVE STRINGS IN DIFFERENT DIRECTORIES MEAN DIFFERENT FILES: for directories and a relative file
+path made of plain names, the file a reference names determines the directory it was written in. -/
+theorem same_string_other_directory (cur cur' : Dir) (file : List Seg)
+    (hc : cur.all plainSeg = true) (hc' : cur'.all plainSeg = true) (hf : file.all plainSeg = true)
+    (h : resolveFile cur file = resolveFile cur' file) : cur = cur' := by
+  rw [resolveFile_plain cur file hc hf, resolveFile_plain cur' file hc' hf] at h
+  exact List.append_cancel_right (Option.some.inj h)
+
+example : resolveFile ["sub".toList] ["common.json".toList] = some ["sub".toList, "common.json".toList] ∧
+    resolveFile [] ["common.json".toList] = some ["common.json".toList] ∧
+    resolveFile ["sub".toList, "deep".toList] ["..".toList, "common.json".toList] = some ["sub".toList, "common.json".toList] := by
+  decide
+
+/-- REFUTATION (confirmed on the real class, known finding C06-K3): inside the context of a SUB-directory
+`resolve_ref` is not idempotent — its answers are relative to `_base_path`, its arguments relative to the
+current directory. `_parse_file` asks `model_resolver.get(path)` with an already resolved path: below `sub/`
+that looks up `sub/sub/b.json#…`, finds nothing, and the definition is parsed a second time. -/
+theorem resolveIn_not_idempotent_below_base :
+    resolveIn ["sub".toList] "b.json#/definitions/Thing".toList = .ok "sub/b.json#/definitions/Thing".toList ∧
+      resolveIn ["sub".toList] "sub/b.json#/definitions/Thing".toList = .ok "sub/sub/b.json#/definitions/Thing".toList := by
+  decide
+
+end basepath
 
 end Dcg.Props.C06
